@@ -1081,22 +1081,27 @@ class ExprMixin:
             return cond, e
         ck, ek = at(f(k))
         ci, _ = at(i)
+        def fa(vs, body, pats=None):
+            try:
+                return z3.ForAll(vs, body, patterns=pats) if pats else z3.ForAll(vs, body)
+            except z3.Z3Exception:
+                return z3.ForAll(vs, body)
         res_arr = z3.Const(fresh_name('filt'), z3.ArraySort(z3.IntSort(), ek.t.sort() if not ek.t.reflike else z3.IntSort()))
         st.assume(z3.And(0 <= nres, nres <= ln))
-        st.assume(z3.ForAll([k], z3.Implies(z3.And(0 <= k, k < nres),
+        st.assume(fa([k], z3.Implies(z3.And(0 <= k, k < nres),
                                             z3.And(0 <= f(k), f(k) < ln, z3.Select(res_arr, k) == ek.z, ck, gi(f(k)) == k)),
-                            patterns=[z3.Select(res_arr, k)]))
-        st.assume(z3.ForAll([a, b], z3.Implies(z3.And(0 <= a, a < b, b < nres), f(a) < f(b)), patterns=[z3.MultiPattern(f(a), f(b))]))
-        st.assume(z3.ForAll([i], z3.Implies(z3.And(0 <= i, i < ln, ci), z3.And(0 <= gi(i), gi(i) < nres, f(gi(i)) == i)),
-                            patterns=[z3.Select(src_arr, i)]))
+                            pats=[z3.Select(res_arr, k)]))
+        st.assume(fa([a, b], z3.Implies(z3.And(0 <= a, a < b, b < nres), f(a) < f(b)), pats=[z3.MultiPattern(f(a), f(b))]))
+        st.assume(fa([i], z3.Implies(z3.And(0 <= i, i < ln, ci), z3.And(0 <= gi(i), gi(i) < nres, f(gi(i)) == i)),
+                            pats=[z3.Select(src_arr, i)]))
         # consequences of the three axioms above, stated for the solver's benefit: the elements between two consecutive kept
         # ones, before the first and after the last kept one fail the condition
         m = z3.Int(fresh_name('m'))
         cm, _ = at(m)
-        st.assume(z3.ForAll([k, m], z3.Implies(z3.And(0 <= k, k + 1 < nres, f(k) < m, m < f(k + 1)), z3.Not(cm)),
-                            patterns=[z3.MultiPattern(f(k), z3.Select(src_arr, m))]))
-        st.assume(z3.ForAll([m], z3.Implies(z3.And(0 <= m, m < ln, z3.Or(nres == 0, m < f(0), m > f(nres - 1))), z3.Not(cm)),
-                            patterns=[z3.Select(src_arr, m)]))
+        st.assume(fa([k, m], z3.Implies(z3.And(0 <= k, k + 1 < nres, f(k) < m, m < f(k + 1)), z3.Not(cm)),
+                            pats=[z3.MultiPattern(f(k), z3.Select(src_arr, m))]))
+        st.assume(fa([m], z3.Implies(z3.And(0 <= m, m < ln, z3.Or(nres == 0, m < f(0), m > f(nres - 1))), z3.Not(cm)),
+                            pats=[z3.Select(src_arr, m)]))
         st.assume(z3.Implies(nres > 0, z3.And(0 <= f(0), f(nres - 1) < ln)))
         r = mk_seq(ek.t, nres, res_arr)
         return self.new_list_from_seq(r, st)
